@@ -39,9 +39,17 @@
 (* `viol` keeps the first failing clause.                                   *)
 (*                                                                         *)
 (* Repairs (fixes/C19-*.diff) are modelled behind switches read from the    *)
-(* environment (ZKFIX_PD, ZKFIX_VM, ZKFIX_DW), so the same module yields    *)
-(* the counterexamples on the unchanged code and the proof-in-bounds on the *)
-(* repaired one.                                                           *)
+(* environment, so the same module yields the counterexamples on the       *)
+(* unchanged code and the proof-in-bounds on the repaired one:             *)
+(*   ZKFIX_PD  C19-parent-delete: _data_changed(None) reports an empty      *)
+(*             child set through _on_set_changed instead of calling         *)
+(*             _send_all_removed                                            *)
+(*   ZKFIX_VM  C19-vanished-member (on top of PD): the queue carries the    *)
+(*             listing, the worker diffs it against _members                *)
+(*   ZKFIX_DW  C19-stale-children-watch: the children watch is restarted    *)
+(*             for every new incarnation (czxid) of the path, a superseded  *)
+(*             ChildrenWatch stops itself, deletion of the path invalidates *)
+(*             the current one                                              *)
 (***************************************************************************)
 EXTENDS ZkAbs, SequencesExt, IOUtils
 
@@ -53,6 +61,9 @@ CONSTANTS Names,      \* member names: small positive integers
 FixPD == "ZKFIX_PD" \in DOMAIN IOEnv   \* parent deletion goes through the worker queue
 FixVM == "ZKFIX_VM" \in DOMAIN IOEnv   \* the worker diffs listings against _members
 FixDW == "ZKFIX_DW" \in DOMAIN IOEnv   \* children watch restarted per incarnation of the path
+\* a weaker form of the last repair (the watch of a deleted incarnation is not invalidated),
+\* kept only as a generator of regression histories for the real code
+NoInv == "ZKFIX_NOINV" \in DOMAIN IOEnv
 
 VARIABLES parent, pinc, kids, dataW, childW,   \* server
           c,                                   \* client (record, see Init)
@@ -65,7 +76,7 @@ SGs == {"S1", "S2", "S3", "S4"}
 GIds == {"IG", "CW"} \cup SGs
 
 Sorted(S) == SetToSortSeq(S, LAMBDA a, b : a < b)
-G0 == [pc |-> "dead", iv |-> 0, k |-> 0, inc |-> 0]
+G0 == [pc |-> "dead", iv |-> 0, k |-> 0]
 NW0 == [pc |-> "qget", removed |-> {}, todo |-> <<>>, got |-> <<>>, kids |-> {}]
 
 \* ------------------------------------------------------------------ small helpers
@@ -134,8 +145,8 @@ DataChangedStat(s, g, inc) ==
 
 \* _data_changed(None, None)
 DataChangedNone(s, g) ==
-  LET s1 == [s EXCEPT !.watching = FALSE] IN
-  IF FixPD \/ FixVM THEN GDRelease(OnSetChanged(s1, {}), g)
+  LET s1 == [s EXCEPT !.watching = FALSE, !.gen = IF FixDW /\ ~NoInv THEN 0 ELSE @] IN
+  IF FixPD THEN GDRelease(OnSetChanged(s1, {}), g)
   ELSE GDRelease(SendAllRemoved(s1), g)
 
 \* response to get(path, watcher): ver = incarnation (0: NoNodeError)
